@@ -7,12 +7,24 @@ It handles all the details of formatting, import registration, and docstring gen
 for these constructs.
 """
 
+import json
 from typing import List, Tuple
 
 from pyopenapi_gen.context.render_context import RenderContext
 
 from .code_writer import CodeWriter
 from .documentation_writer import DocumentationBlock, DocumentationWriter
+
+
+def _py_str(value: str) -> str:
+    """Render text from the spec as a Python string literal (identical to "value" for plain text)."""
+    literal = json.dumps(value, ensure_ascii=False)
+    # json.dumps leaves non-printable characters such as U+2028 or U+0085 raw; a code writer that splits lines
+    # would break the literal there, so they are written as escapes (astral characters stay literal)
+    return "".join(
+        ch if ch.isprintable() else ("\\u%04x" % ord(ch) if ord(ch) < 0x10000 else "\\U%08x" % ord(ch))
+        for ch in literal
+    )
 
 
 class PythonConstructRenderer:
@@ -96,7 +108,7 @@ class PythonConstructRenderer:
             writer.write_line(f"class {alias_name}Discriminator:")
             writer.write_line(f'    """Discriminator metadata for {alias_name} union."""')
             writer.write_line("")
-            writer.write_line(f'    property_name: str = "{discriminator.property_name}"')
+            writer.write_line(f"    property_name: str = {_py_str(discriminator.property_name)}")
             writer.write_line(f'    """The discriminator property name"""')
             writer.write_line("")
 
@@ -107,7 +119,7 @@ class PythonConstructRenderer:
                 writer.write_line("    _mapping_data: tuple[tuple[str, str], ...] = (")
                 for disc_value, schema_ref in discriminator.mapping.items():
                     schema_name = schema_ref.split("/")[-1]
-                    writer.write_line(f'        ("{disc_value}", "{schema_name}"),')
+                    writer.write_line(f"        ({_py_str(disc_value)}, {_py_str(schema_name)}),")
                 writer.write_line("    )")
                 writer.write_line("")
                 writer.write_line("    def get_mapping(self) -> dict[str, type]:")
@@ -125,7 +137,7 @@ class PythonConstructRenderer:
                 writer.write_line("        return {")
                 for disc_value, schema_ref in discriminator.mapping.items():
                     class_name = NameSanitizer.sanitize_class_name(schema_ref.split("/")[-1])
-                    writer.write_line(f'            "{disc_value}": {class_name},')
+                    writer.write_line(f"            {_py_str(disc_value)}: {class_name},")
                 writer.write_line("        }")
             else:
                 writer.write_line("    _mapping_data: tuple[tuple[str, str], ...] | None = None")
@@ -150,6 +162,7 @@ class PythonConstructRenderer:
             # Sanitize description for use within a triple-double-quoted string for the actual docstring
             safe_desc_content = description.replace("\\", "\\\\")  # Escape backslashes first
             safe_desc_content = safe_desc_content.replace('"""', '\\"\\"\\"')  # Escape triple-double-quotes
+            safe_desc_content = safe_desc_content.replace("\x00", "\\x00")  # NUL cannot appear in source code
             writer.write_line(f'"""Alias for {safe_desc_content}"""')  # Actual generated docstring uses """
         return writer.get_code()
 
@@ -211,7 +224,7 @@ class PythonConstructRenderer:
         # Write Enum members
         for member_name, value in values:
             if base_type == "str":
-                writer.write_line(f'{member_name} = "{value}"')
+                writer.write_line(f"{member_name} = {_py_str(str(value))}")
             else:  # int
                 writer.write_line(f"{member_name} = {value}")
 
@@ -301,7 +314,7 @@ class PythonConstructRenderer:
             for name, type_hint, _, field_desc in required_fields:
                 line = f"{name}: {type_hint}"
                 if field_desc:
-                    comment_text = field_desc.replace("\n", " ")
+                    comment_text = " ".join(field_desc.replace("\x00", " ").splitlines())
                     line += f"  # {comment_text}"
                 writer.write_line(line)
 
@@ -311,7 +324,7 @@ class PythonConstructRenderer:
                     context.add_import("dataclasses", "field")  # Ensure field is imported
                 line = f"{name}: {type_hint} = {default_expr}"
                 if field_desc:
-                    comment_text = field_desc.replace("\n", " ")
+                    comment_text = " ".join(field_desc.replace("\x00", " ").splitlines())
                     line += f"  # {comment_text}"
                 writer.write_line(line)
 
@@ -326,7 +339,7 @@ class PythonConstructRenderer:
             writer.write_line("key_transform_with_load = {")
             writer.indent()
             for api_field, python_field in sorted(field_mappings.items()):
-                writer.write_line(f'"{api_field}": "{python_field}",')
+                writer.write_line(f"{_py_str(api_field)}: {_py_str(python_field)},")
             writer.dedent()
             writer.write_line("}")
 
@@ -335,7 +348,7 @@ class PythonConstructRenderer:
             writer.indent()
             # Reverse the mapping for dump
             for api_field, python_field in sorted(field_mappings.items(), key=lambda x: x[1]):
-                writer.write_line(f'"{python_field}": "{api_field}",')
+                writer.write_line(f"{_py_str(python_field)}: {_py_str(api_field)},")
             writer.dedent()
             writer.write_line("}")
 
